@@ -45,9 +45,13 @@ func VerifC08_PrinterDegenerate() {
 }
 
 func VerifC08_ConditionsDegenerate() {
-	c := &openfgav1.Condition{Name: "c"}
+	c := &openfgav1.Condition{Name: "c", Parameters: map[string]*openfgav1.ConditionParamTypeRef{"x": {TypeName: openfgav1.ConditionParamTypeRef_TYPE_NAME_INT}}}
 	key := "c"
-	switch zzverif.Choose("condition", 9) {
+	switch zzverif.Choose("condition", 11) {
+	case 9:
+		c.Parameters = nil
+	case 10:
+		c.Parameters = map[string]*openfgav1.ConditionParamTypeRef{}
 	case 7:
 		c.Parameters = map[string]*openfgav1.ConditionParamTypeRef{"p": {TypeName: openfgav1.ConditionParamTypeRef_TYPE_NAME_LIST, GenericTypes: []*openfgav1.ConditionParamTypeRef{}}}
 	case 8:
